@@ -413,8 +413,8 @@ func bytesCase(c *CaseCtx, salt int64) *ContCase {
 // children until fewer than 256 remain, after which the commit must go through and the cold rebuild must agree.
 func runWideParentCase(c *CaseCtx, r *rand.Rand) *CaseResult {
 	slab := []uint32{32768, 16384, 32768}[r.Intn(3)]
-	variant := r.Intn(3)
-	res := &CaseResult{Config: map[string]any{"kind": "wide-parent", "slab_size": slab, "variant": []string{"array of inlined maps", "map of inlined maps", "array of inlined arrays with types of their own"}[variant]}}
+	variant := r.Intn(4)
+	res := &CaseResult{Config: map[string]any{"kind": "wide-parent", "slab_size": slab, "variant": []string{"array of inlined maps", "map of inlined maps", "array of inlined arrays with types of their own", "array of inlined arrays and maps that share 26-70 types pairwise"}[variant]}}
 	atree.VerifSetThreshold(slab)
 	defer atree.VerifSetThreshold(1024)
 	w := NewWorld(c.CaseSeed(), addrOf(byte(1+c.Case%200), 0))
@@ -433,7 +433,7 @@ func runWideParentCase(c *CaseCtx, r *rand.Rand) *CaseResult {
 		}
 		res.Trace = w.trace
 		res.Hash = traceHash(res.Config, w.trace)
-		res.NonTrivial = w.stats.Extra["wide-parent-children-beyond-256"] > 0
+		res.NonTrivial = w.stats.Extra["wide-parent-children-beyond-256"] > 0 || w.stats.Extra["wide-parent-shared-type-infos-beyond-24"] > 0
 		return res
 	}
 	defer func() {
@@ -454,11 +454,32 @@ func runWideParentCase(c *CaseCtx, r *rand.Rand) *CaseResult {
 	}
 	w.AddRoot(root)
 	K := 258 + r.Intn(30)
+	T := 26 + r.Intn(45)
+	if variant == 3 {
+		// every type is used by one inlined array AND one inlined map of the slab: the slab's list of shared type infos has
+		// T >= 26 entries and the references into it need the two-byte CBOR form from index 24 on
+		K = 2*T + r.Intn(10)
+	}
 	w.logOp("create root %s slab=%d, %d inlined children", root, slab, K)
 	child := func(i int) (*Node, error) {
 		saveTrace := w.traceOn
 		w.traceOn = false
 		defer func() { w.traceOn = saveTrace }()
+		if variant == 3 {
+			ti := TI{ID: uint64(3000 + (i/2)%T)}
+			if i%2 == 0 {
+				a, err := w.NewRootArray(w.addr, ti)
+				if err != nil {
+					return nil, err
+				}
+				return a, w.OpArrayAppend(a, &Node{Kind: KU8, U: uint64(i % 200)})
+			}
+			m, err := w.NewRootMap(w.addr, ti, nil)
+			if err != nil {
+				return nil, err
+			}
+			return m, w.OpMapSet(m, &Node{Kind: KU8, U: 1}, &Node{Kind: KU64, U: uint64(i)})
+		}
 		if variant == 2 {
 			a, err := w.NewRootArray(w.addr, TI{ID: uint64(1000 + i)})
 			if err != nil {
@@ -510,6 +531,9 @@ func runWideParentCase(c *CaseCtx, r *rand.Rand) *CaseResult {
 		if i >= 256 {
 			w.stats.Extra["wide-parent-children-beyond-256"]++
 		}
+		if variant == 3 && i >= 2*24 {
+			w.stats.Extra["wide-parent-shared-type-infos-beyond-24"]++
+		}
 	}
 	// back below the limit: now the commit must go through
 	remove := func() error {
@@ -544,6 +568,18 @@ func runWideParentCase(c *CaseCtx, r *rand.Rand) *CaseResult {
 	w.stats.Extra["wide-parent-cases-committed-below-the-limit"]++
 	// and across the boundary again on the decoded slab
 	w.DropCache()
+	if variant == 3 {
+		// the decoded slab is used on: a few children go, a few more come (types beyond the 24th among them)
+		for j := 0; j < 6; j++ {
+			if err := remove(); err != nil {
+				return finish(err)
+			}
+			if err := add(K + j); err != nil {
+				return finish(err)
+			}
+		}
+		return finish(w.CommitAndCheck(false, 2))
+	}
 	for i := K; count() < 262; i++ {
 		if err := add(i); err != nil {
 			return finish(err)
@@ -1166,7 +1202,7 @@ func init() {
 			"len(register) - extra data item - inlined extra data item (+16 for an omitted sibling link) + exact compact saving must EQUAL the reported size; every inline element re-encoded alone; decoded size == live size; all registers re-checked at commits. " +
 			"non-trivial = >50 slabs byte-checked incl. non-root ones, a compact map or collision group checked by equality, and an inline<->standalone flip; distinct by hash(config, operation list)",
 		Assumptions: []string{"register sections are split with an independent CBOR stream decoder", "exploration, not proof"},
-		Mandatory:   []string{"bytes-slabs", "bytes-compact-eq", "bytes-groups", "bytes-no-next", "registers_checked", "bytes-batch-built-containers"},
+		Mandatory:   []string{"bytes-slabs", "bytes-compact-eq", "bytes-groups", "bytes-no-next", "registers_checked", "bytes-batch-built-containers", "wide-parent-shared-type-infos-beyond-24"},
 	})
 	register(&Prop{
 		ID: "C07", Level: "exploration", Run: runC07, Cases: cases(16*48, 16*200), MinNonTrivial: 8,
@@ -1174,7 +1210,7 @@ func init() {
 			"for every dirtied slab after every operation and every register at commits: Encode(Decode(R)) == R byte-for-byte, decoded content == live content (compact maps: key->value content), head flags (root, has-references, size-limited, has-next) == independently computed truth; in-repo serialization verifiers as secondary oracle. " +
 			"non-trivial = >20 registers checked and a compact pair, a collision group or >1 inlined child present; distinct by hash(config, operation list)",
 		Assumptions: []string{"only format version 1 registers are produced by the library under test", "exploration, not proof"},
-		Mandatory:   []string{"bytes-slabs", "registers_checked", "inrepo-serialization-verifies", "bytes-batch-built-containers"},
+		Mandatory:   []string{"bytes-slabs", "registers_checked", "inrepo-serialization-verifies", "bytes-batch-built-containers", "wide-parent-shared-type-infos-beyond-24"},
 	})
 	register(&Prop{
 		ID: "C09", Level: "exploration", Run: runC09, Cases: cases(16*36, 16*200), MinNonTrivial: 8,
